@@ -86,6 +86,7 @@ const (
 	OISub
 	OILt
 	OILe
+	OIDiv // floor division by a positive constant
 	OBv2Int  // unsigned
 	OInt2Bv  // sort.W
 	OSBv2Int // signed bv to int
@@ -752,6 +753,16 @@ func (ts *TermStore) ILe(a, b *Term) *Term {
 	}
 	return ts.mk(OILe, BoolSort, 0, 0, "", a, b)
 }
+func (ts *TermStore) IDiv(a, b *Term) *Term { // b: positive constant (SMT-LIB div = floor for positive divisors)
+	if a.IsConst() && b.IsConst() && b.i > 0 {
+		q := a.i / b.i
+		if a.i%b.i != 0 && a.i < 0 {
+			q--
+		}
+		return ts.Int(q)
+	}
+	return ts.mk(OIDiv, IntSort, 0, 0, "", a, b)
+}
 func (ts *TermStore) Bv2Int(a *Term) *Term { // unsigned
 	if a.IsConst() {
 		return ts.Int(int64(a.u))
@@ -913,7 +924,7 @@ var opNames = map[Op]string{
 	OBvURem: "bvurem", OBvSRem: "bvsrem", OBvAnd: "bvand", OBvOr: "bvor", OBvXor: "bvxor",
 	OBvNot: "bvnot", OBvNeg: "bvneg", OBvShl: "bvshl", OBvLshr: "bvlshr", OBvAshr: "bvashr",
 	OBvUlt: "bvult", OBvUle: "bvule", OBvSlt: "bvslt", OBvSle: "bvsle", OConcat: "concat",
-	OIAdd: "+", OISub: "-", OILt: "<", OILe: "<=", OBv2Int: "bv2nat",
+	OIAdd: "+", OISub: "-", OILt: "<", OILe: "<=", OIDiv: "div", OBv2Int: "bv2nat",
 	OSLen: "seq.len", OSConcat: "seq.++", OSUnit: "seq.unit", OSAt: "seq.nth", OSSubstr: "seq.extract",
 	OSPrefix: "seq.prefixof", OSSuffix: "seq.suffixof", OSContains: "seq.contains",
 }
